@@ -395,12 +395,16 @@ def answers (q : Nat) : Follow → Bool
     writes an INFO_REQUEST and reads one packet; an exhausted stream is io.EOF. -/
 def kbdRounds : List Nat → List Follow → Bool × List Ev × Nat
   | [], _ => (true, [], 0)
-  | q :: _, [] => (false, [Ev.sendInfoReq q], 0)
-  | q :: qs, f :: rest =>
-    if answers q f then
-      let r := kbdRounds qs rest
-      (r.1, Ev.sendInfoReq q :: r.2.1, r.2.2 + 1)
-    else (false, [Ev.sendInfoReq q], 1)
+  | q :: qs, fl =>
+    -- 99 stands for a Challenge call whose questions and echos differ in length: it fails before any I/O
+    if q == 99 then (false, [], 0) else
+    match fl with
+    | [] => (false, [Ev.sendInfoReq q], 0)
+    | f :: rest =>
+      if answers q f then
+        let r := kbdRounds qs rest
+        (r.1, Ev.sendInfoReq q :: r.2.1, r.2.2 + 1)
+      else (false, [Ev.sendInfoReq q], 1)
 
 def kbdPhase (st : St) (r : Req) : Phase :=
   if !st.cbs.kbd then .res st [] 0 .fail else
